@@ -86,6 +86,20 @@ fn bases() -> Vec<Base> {
         world::write(&dir, &world::link_file("s", a), &world::block_text(&world::sign_link(world::link("s", world::arts(&[]), world::arts(&[("p", 2)])), &[a])));
         v.push(Base { name: "L4:step-and-inspection", layout: world::layout(vec![s], vec![insp], &[a], world::far_future()), dir });
     }
+    // L5: rule patterns and names with separators, mixed case and a non-ASCII letter (for the
+    // re-spelling sweep: '/' <-> '\\', case, added separators)
+    {
+        let dir = util::fresh_dir("c01");
+        let s = world::step("Build-it", 1, &[a])
+            .expected_command(vec!["make".to_string(), "Out/p".to_string()].into())
+            .add_expected_material(ArtifactRule::Allow("src/*".into()))
+            .add_expected_product(ArtifactRule::Create("out/p".into()))
+            .add_expected_product(ArtifactRule::Disallow("keys/secret.key".into()))
+            .add_expected_product(ArtifactRule::Disallow("Keys\\Secret.key".into()))
+            .add_expected_product(ArtifactRule::Allow("caf\u{e9}/menu".into()));
+        world::write(&dir, &world::link_file("Build-it", a), &world::block_text(&world::sign_link(world::link("Build-it", world::arts(&[("src/a.c", 1)]), world::arts(&[("out/p", 2)])), &[a])));
+        v.push(Base { name: "L5:paths-with-separators-and-case", layout: world::layout(vec![s], vec![], &[a], world::far_future()), dir });
+    }
     // every base has a readme, and its directory also holds the evidence a *mutated* layout would
     // ask for (a link for the renamed / copied step, a second functionary's link), so that a
     // post-signing change is not rejected downstream for lack of evidence
@@ -174,6 +188,9 @@ fn find_rule(signed: &mut Value, want_match: bool) -> Option<&mut Value> {
 
 /// Apply mutation `m` to the `signed` object. Returns false if not applicable.
 fn mutate(signed: &mut Value, original: &Value, m: &str) -> bool {
+    if let Some(rest) = m.strip_prefix("edit:") {
+        return crate::tamper::apply(signed, rest);
+    }
     let x = keys::get("ed5");
     let b = keys::get("ed2");
     match m {
@@ -587,6 +604,17 @@ fn exec(acc: &mut Acc, base: &Base, s: &Signed, km: &KeyMap, hist: &[&str], corr
         }
     };
     let identity = same_content(&parsed.metadata, &s.original.metadata);
+    // a single leaf edit is judged by the reference table, not by the library's own reader
+    let identity = match hist {
+        [one] if one.starts_with("edit:") => {
+            let by_table = crate::tamper::keeps_layout_content(&one[5..], identity);
+            if identity && !by_table {
+                acc.note("edited-layout-reads-back-as-the-signed-one(lossy reader)");
+            }
+            by_table
+        }
+        _ => identity,
+    };
     let valid = valid_signers(&block, &s.genuine);
     // reference condition
     // distinct keys: distinct intrinsic ids AND distinct key material (one key may have two ids)
@@ -631,7 +659,7 @@ fn exec(acc: &mut Acc, base: &Base, s: &Signed, km: &KeyMap, hist: &[&str], corr
                         "key-without-valid-signature".to_string()
                     }
                 } else {
-                    format!("content-changed-after-signing:{}", hist.iter().filter(|m| !m.starts_with("restore")).cloned().collect::<Vec<_>>().join(","))
+                    format!("content-changed-after-signing:{}", hist.iter().filter(|m| !m.starts_with("restore")).map(|m| m.split('@').next().unwrap_or(m)).collect::<Vec<_>>().join(","))
                 };
                 acc.violation(&format!("accepted:{why}"), &format!("verification succeeded although the statement's condition fails ({why})"), witness);
             } else if let Some(r) = reference_summary {
@@ -726,6 +754,22 @@ pub fn run(tier: Tier) -> i32 {
                 }
             }
         }
+        // leaf-edit sweep: every leaf of the signed part x every small edit (re-spelled strings,
+        // wrapped numbers, null <-> empty, member removed), one at a time
+        // (single Ed25519 signer and the three-signer set, exact key map)
+        if *mask == 1 || *mask == 7 {
+            if let Some(km) = kms_m.iter().rev().find(|k| k.name.starts_with("subset")) {
+                for e in crate::tamper::edits(&s.block["signed"]) {
+                    let name = format!("edit:{e}");
+                    acc.transitions += 1;
+                    if exec(acc, base, &s, km, &[name.as_str()], "none", 0, None, &reference_summary).is_some() {
+                        acc.states += 1;
+                        acc.nontrivial += 1;
+                        acc.note_n("leaf_edits", 1);
+                    }
+                }
+            }
+        }
         if *bi == 1 && *mask == 5 {
             acc.sample(|| state_json(base.name, &s, &kms[1], &["step0.threshold-1"], "none", 0, None));
             acc.sample(|| state_json(base.name, &s, &kms[2], &[], "flip-bit-mid", 0, None));
@@ -758,10 +802,10 @@ pub fn run(tier: Tier) -> i32 {
     let _ = std::env::set_current_dir("/");
     c.acc = acc;
     c.rule = format!(
-        "state = (base layout in {{no steps, one step with rules, two steps with MATCH+prefix, threshold 2 with RSA key in table, one step and one inspection}} (each directory also holds the evidence the mutated layouts ask for), signer subset of 4 owners of 4 key types, caller key map, mutation history of length <= {depth} over {} mutations incl. inverses, signature corruption); every state is one in_toto_verify run; non-trivial = anything but the exact key map on the untouched block",
+        "state = (base layout in {{no steps, one step with rules, two steps with MATCH+prefix, threshold 2 with RSA key in table, one step and one inspection, one step whose names and rule patterns carry separators, mixed case and a non-ASCII letter}} (each directory also holds the evidence the mutated layouts ask for), signer subset of 4 owners of 4 key types, caller key map, mutation history of length <= {depth} over {} mutations incl. inverses, signature corruption); every state is one in_toto_verify run; non-trivial = anything but the exact key map on the untouched block",
         MUTATIONS.len()
     );
-    c.bound_completed = format!("all 16 signer subsets x all caller key maps x 10 corruptions per signature entry; mutation depth {depth} ({}); every single bit of {} signature(s)", if depth == 3 { "depth 1 with every accepting-capable key map, depth 2 with the exact key map for all signer sets, depth 3 for the single-Ed25519-signer set" } else { "depth 1 with every accepting-capable key map, depth 2 with the exact key map" }, if tier.thorough() { "all four schemes'" } else { "the Ed25519" });
+    c.bound_completed = format!("all 16 signer subsets x all caller key maps x 10 corruptions per signature entry; mutation depth {depth} ({}); every leaf of the signed part x {} small edits (strings re-spelled: separators, case, added blanks/NUL/slashes, decomposed letter; integers +-1, negated, +2^8..+2^63; null <-> empty; booleans; member removed) for the one- and three-signer sets; every single bit of {} signature(s)", if depth == 3 { "depth 1 with every accepting-capable key map, depth 2 with the exact key map for all signer sets, depth 3 for the single-Ed25519-signer set" } else { "depth 1 with every accepting-capable key map, depth 2 with the exact key map" }, crate::tamper::RESPELLINGS.len() + crate::tamper::NUMBER_EDITS.len() + crate::tamper::SHAPE_EDITS.len(), if tier.thorough() { "all four schemes'" } else { "the Ed25519" });
     c.assume("ring's verification is a trusted black box; fixed keys");
     c.assume("'content enforced equals content signed' is decided on the parsed value (expiry to the second)");
     c.finish()
@@ -779,7 +823,7 @@ pub fn replay(case: &Value) -> Value {
         entries: case["caller_keys"].as_array().map(|a| a.iter().map(|e| (e["label"].as_str().unwrap_or("").to_string(), e["key_index"].as_u64().unwrap_or(9) as usize)).collect()).unwrap_or_default(),
     };
     let hist_owned: Vec<String> = case["mutations"].as_array().map(|a| a.iter().filter_map(|x| x.as_str().map(String::from)).collect()).unwrap_or_default();
-    let hist: Vec<&str> = hist_owned.iter().map(|s| MUTATIONS.iter().find(|m| **m == s.as_str()).copied().unwrap_or("")).collect();
+    let hist: Vec<&str> = hist_owned.iter().map(|s| s.as_str()).collect();
     let corr = case["corruption"].as_str().unwrap_or("none");
     let corr = if corr == "flip-bit" { "flip-bit" } else { CORRUPTIONS.iter().find(|c| **c == corr).copied().unwrap_or("none") };
     let mut acc = Acc::new();
